@@ -10,7 +10,10 @@
   GeoModel/InteriorPoint.lean).
 
   Numeric comparison: |impl − exact| ≤ tol with tol = 64·2^-53·(M + 1), M = max |coordinate| of
-  the geometry and the query point. Where the exact rule leaves several answers within 2^-30
+  the geometry and the query point; for interior points of polygons multiplied by (1 + κ), κ the
+  largest |dx/dy| of an edge crossing the scan line (conditioning of the crossing abscissa).
+  Polygons whose selected scan interval is narrower than 2^-40·(M + 1) are `SKIP near-tie-sliver`
+  (no f64 point can be expected inside) — unless the implementation panics. Where the exact rule leaves several answers within 2^-30
   (relative, squared distances / widths) of the best one, an implementation answer that is one of
   them but not the model's is reported `SKIP near-tie`.
 -/
@@ -326,6 +329,49 @@ where fb (poly : Poly) : Bool :=
     | none => false
     | some (mn, mx) => (IP.firstVerified (locOf poly) (IP.scanCands poly mn mx)).isNone
 
+partial def polysOf : Geom → List Poly
+  | .polygon p => [p]
+  | .multiPolygon ps => ps
+  | .collection gs => gs.flatMap polysOf
+  | _ => []
+
+/-- raw width of the scan candidate the model selects for this polygon (0 on the other branches) -/
+def chosenWidth (poly : Poly) : Rat :=
+  match poly.ext with
+  | [_] => 0
+  | _ => match getBoundingRect poly.ext with
+    | none => 0
+    | some (mn, mx) =>
+      ((IP.scanCands poly mn mx).find? (fun c => locOf poly c.1 != .outside)).map (·.2) |>.getD 0
+
+/-- a polygon so thin along its scan line that the interior interval found by the exact rule is
+below 2^-40 of the coordinate magnitude: the f64 code cannot be expected to hit it -/
+def isSliver (scale : Rat) (g : Geom) : Bool :=
+  (polysOf g).any (fun p => let w := chosenWidth p; decide (0 < w) && decide (w ≤ scale / 1099511627776))
+
+/-- some ring repeats a coordinate consecutively (a zero-length edge; still a valid ring) -/
+def hasRepeatedVertex (g : Geom) : Bool :=
+  (polysOf g).any (fun p => p.rings.any (fun r => (segs r).any (fun s => s.1 == s.2)))
+
+/-- conditioning of the scan crossings of a polygon: the largest |dx/dy| among the edges that cross
+the scan line (an error `e` in the ordinate moves the crossing abscissa by `e·|dx/dy|`) -/
+def scanCond (poly : Poly) : Rat :=
+  match getBoundingRect poly.ext with
+  | none => 0
+  | some (mn, mx) =>
+    let ym := IP.yMid mn mx poly.coords
+    poly.lines.foldl (fun k e =>
+      if (e.1.y - ym) * (e.2.y - ym) < 0 then rmax k (rabs (e.2.x - e.1.x) / rabs (e.2.y - e.1.y)) else k) 0
+
+/-- the branch `coord.y == y_mid` is taken on the *rounded* middle ordinate: a vertex ordinate
+within 2^-40·scale of the exact middle (but not equal to it) makes that branch a rounding near-tie -/
+def yMidNearTie (scale : Rat) (poly : Poly) : Bool :=
+  match getBoundingRect poly.ext with
+  | none => false
+  | some (mn, mx) =>
+    let y0 := (mn.y + mx.y) / 2
+    poly.coords.any (fun c => c.y != y0 && rabs (c.y - y0) ≤ scale / 1099511627776)
+
 def optStr : Option Pt → String
   | none => "none"
   | some p => "some " ++ p.str
@@ -336,7 +382,7 @@ def handleIp (inp out : List String) : String :=
     if !inDom g then skip "invalid-operand" else
     let cs := coordsIter g
     let scale := maxAbs cs + 1
-    let tol := tolOf cs
+    let tol := tolOf cs * (1 + ((polysOf g).map scanCond).foldl rmax 0)
     let m := IP.interior lenD locOf g
     let as := alts scale g
     if (match m with | some mp => !as.any (· == mp) | none => !as.isEmpty) then "ERR model-not-among-alts " ++ optStr m else
@@ -352,11 +398,16 @@ def handleIp (inp out : List String) : String :=
       " res=" ++ (match m with | some mp => (locate g mp).str | none => "none") ++
       (if hasHoleTouch g then " hole-touches-shell" else "") ++
       (if takesFallback g then " vertex-fallback" else "") ++
+      (if isSliver scale g then (if hasRepeatedVertex g then " sliver-with-repeated-vertex" else " sliver") else
+        (if hasRepeatedVertex g then " repeated-vertex" else "")) ++
       (if !same && isAlt then " near-tie-alt" else "") ++
       (if depth g > 0 then " nested" else "") ++
       (if maxAbs cs > 100000 then " far" else "") ++
       (if isEmptyG g then " triv" else "")
-    reply (same || isAlt) prop cls (optStr m) (String.intercalate " " out)
+    -- a sliver below f64 resolution: only a panic is judged (the point itself is a rounding near-tie)
+    if isSliver scale g && prop != "FAIL:panic" then skip "near-tie-sliver"
+    else if (polysOf g).any (yMidNearTie scale) && prop != "FAIL:panic" then skip "near-tie-ymid"
+    else reply (same || isAlt) prop cls (optStr m) (String.intercalate " " out)
   | _, _ => "ERR parse"
 
 def handle (op : String) (inp out : List String) : Option String :=
